@@ -251,9 +251,9 @@ _itos = lambda k: z3.If(k < 0, z3.Concat(z3.StringVal("-"), z3.IntToStr(-k)), z3
 cpath = specfn("cpath", [TStr, TInt], TStr, py=lambda base, k: "%s_%d" % (base, k), opaque=True, macro=True,
                doc="name of chunk file k of the array stored under base")
 cpath.define = lambda base, k: z3.Concat(base, z3.StringVal("_"), _itos(k))
-fsd = specfn("fsd", [files.FS, TStr], TBytes, doc="contents of a file; a missing file reads as empty (it is created empty on first use)")
+fsd = specfn("fsd", [files.FS, TStr], TBytes, macro=True, doc="contents of a file; a missing file reads as empty (it is created empty on first use)")
 fsd.define = lambda fs, p: z3.If(OBY.is_none(z3.Select(fs, p)), z3.Empty(BYTES), OBY.val(z3.Select(fs, p)))
-aitem = specfn("aitem", [files.FS, TStr, TInt, TInt, TInt], TBytes,
+aitem = specfn("aitem", [files.FS, TStr, TInt, TInt, TInt], TBytes, macro=True,
                doc="abstract view: item i of the array (m items of sz bytes per chunk file), unwritten regions read as zeros")
 aitem.define = lambda fs, base, m, sz, i: files.fitem(fsd(fs, cpath(base, i / m)), (i % m) * sz, sz)
 Len = z3.Length
@@ -290,8 +290,17 @@ lemma("aitem_write", [_fs, _base, _m, _sz, _i, _j, _cc],
              And(_j != _i, _j / _m == _i / _m, _j % _m == _i % _m)])
 
 
+def _obj(E, env, who):
+    """who: a name of the environment, optionally followed by '>'-separated (mangled) field names"""
+    parts = who.split(">")
+    o = env[parts[0]]
+    for f in parts[1:]:
+        o = E.cell(o)[2][f]
+    return o
+
+
 def _afld(E, env, name, who="self"):
-    v = E.cell(env[who])[2][name]
+    v = E.cell(_obj(E, env, who))[2][name]
     return E.list_sv(v).t if name == A_OF else (v.t if isinstance(v, SV) else E.to_sv(v).t)
 
 
@@ -450,3 +459,86 @@ contract(SMF + ".__setitem__#notbytes", params=dict(self=SMFT, key=TInt, value=T
                  "TypeError": dict(when="not (key >= self.__array_len or key < -self.__array_len)", iff=True)},
          raise_ensures={"IndexError": NOFX, "TypeError": NOFX},
          modifies_ghost=FGHOST, no_runtime=True, props=["C19"])
+
+# ---- close ---------------------------------------------------------------------------------------------------------------
+def all_closed(upto_src=None, who="self"):
+    """every cached file object (of the first `upto` positions) is closed"""
+    def f(E, env):
+        S = _named(E, _afld(E, env, A_OF, who))
+        k = z3.Int("ck")
+        lim = Len(S) if upto_src is None else z3_int(E.spec_eval(upto_src, env, old=True))
+        return SV(z3.ForAll([k], Imp(And(0 <= k, k < lim, k < Len(S), OFILE.is_some(S[k])),
+                                     _gsel(E, "fh_state", OFILE.val(S[k])) == 2), patterns=[nth_pat(S, k)]), TBool)
+    return f
+
+
+contract(SMF + ".close", params=dict(self=SMFT), requires=["inv(self)"],
+         ensures=[all_closed(), "fs == old(fs)", "fh_path == old(fh_path)"],
+         loops={0: dict(invariant=[all_closed("it"), "fs == old(fs)", "fh_path == old(fh_path)"])},
+         modifies_ghost=["fh_state", "fh_pos"], no_runtime=True, props=["C19"])
+
+# collections.abc.Sequence.__iter__ as documented (B5), restated as ghost code over __getitem__ and verified
+ALL_ITEMS = APK % ("0", "1", "self.__array_len")
+contract(SMF + ".__iter__", params=dict(self=SMFT), returns=TList(TBytes), modifies=["self"], requires=AINV,
+         body="""def __iter__(self):
+    ret = []
+    i = 0
+    try:
+        while True:
+            v = self[i]
+            ret.append(v)
+            i += 1
+    except IndexError:
+        pass
+    return ret
+""",
+         ghost_scope="data_persistence/persistent_array.py", locals={"ret": TList(TBytes)},
+         loops={0: dict(invariant=VIEW_RO + ["0 <= i", "i <= self.__array_len", "len(ret) == i", "ret == " + APK % ("0", "1", "i")])},
+         ensures=VIEW_RO + ["result == " + ALL_ITEMS, "len(result) == self.__array_len"],
+         modifies_ghost=FGHOST, no_runtime=True, props=["C19"])
+
+# ---- construction: create / reopen -----------------------------------------------------------------------------------
+META = TTuple(TInt, TInt, TInt)
+_mpk, _munpk = externals.pickle_fns(META)
+pickled_meta = specfn("pickled_meta", [META], TBytes, py=lambda t: _pickle.dumps(tuple(t)))
+pickled_meta.decl = _mpk
+_mt = z3.Const("pa_meta", sort(META))
+axiom("P1_meta", [_mt], And(_munpk(_mpk(_mt)) == _mt, files.valid_pickle(_mpk(_mt))), patterns=[_mpk(_mt)], auto=True,
+      note="P1: pickle round trip of the (item_size, array_len, items_per_file) tuple")
+MP = "local_path + '_meta'"
+
+
+def no_chunks(E, env):
+    """no chunk file of this array exists yet (creation in a fresh place)"""
+    base = E.to_sv(env["local_path"], TStr).t
+    k = z3.Int("nk")
+    fs = E.ghostv["fs"].t
+    return SV(z3.ForAll([k], OBY.is_none(z3.Select(fs, cpath(base, k))), patterns=[cpath(base, k)]), TBool)
+
+
+def view_zero(E, env):
+    base, m, sz = (_afld(E, env, n) for n in (A_PATH, A_M, A_SZ))
+    j = z3.Int("vj")
+    fs = _named(E, E.ghostv["fs"].t)
+    return SV(z3.ForAll([j], Imp(j >= 0, aitem(fs, base, m, sz, j) == zeros(sz)), patterns=[aitem(fs, base, m, sz, j)]), TBool)
+
+
+KW = TPyDict(dict(item_size=TInt, array_len=TInt, item_num_in_one_file=TInt))
+FIELDS_ARE = lambda a, b, c: ["self.__local_path == local_path", "self.__item_size == " + a, "self.__array_len == " + b,
+                              "self.__item_num_in_one_file == " + c]
+contract(SMF + ".__init__#c", params=dict(self=SMFT, local_path=TStr, mode=TStr, kwargs=KW), param_values={"mode": "c"},
+         modifies=["self"],
+         requires=["kwargs['item_size'] >= 1", "kwargs['array_len'] >= 1", "kwargs['item_num_in_one_file'] >= 1", no_chunks],
+         raises={"FileExistsError": dict(when="(%s) in old(fs)" % MP, iff=True)}, raise_ensures={"FileExistsError": NOFX},
+         lemmas=["cpath_not_meta", "zeros_len"], unfold_only=["aitem", "fsd", "fitem", "fwrite"],
+         ensures=AINV + FIELDS_ARE("kwargs['item_size']", "kwargs['array_len']", "kwargs['item_num_in_one_file']") + [
+             "fs == dput(old(fs), %s, pickled_meta((kwargs['item_size'], kwargs['array_len'], kwargs['item_num_in_one_file'])))" % MP,
+             view_zero],
+         modifies_ghost=FGHOST, no_runtime=True, props=["C19"])
+contract(SMF + ".__init__#r", params=dict(self=SMFT, local_path=TStr, mode=TStr), param_values={"mode": "r"}, modifies=["self"],
+         ghost={"g_sz": TInt, "g_len": TInt, "g_m": TInt}, locals={"pickled_object": META},
+         requires=["g_sz >= 1", "g_len >= 1", "g_m >= 1",
+                   "implies((%s) in fs, fs[%s] == pickled_meta((g_sz, g_len, g_m)))" % (MP, MP)],
+         raises={"FileNotFoundError": dict(when="(%s) not in old(fs)" % MP, iff=True)}, raise_ensures={"FileNotFoundError": NOFX},
+         ensures=AINV + FIELDS_ARE("g_sz", "g_len", "g_m") + ["fs == old(fs)"],
+         modifies_ghost=["fh_state", "fh_path", "fh_pos"], no_runtime=True, props=["C19"])
